@@ -1016,7 +1016,99 @@ def c05_22(ctx):
 
 
 
+def _bip143_cells(ctx):
+    if not hasattr(ctx, "_c05_bip143"):
+        ctx._c05_bip143 = _bip143_cells_(ctx)
+    return ctx._c05_bip143
+
+
+def _bip143_cells_(ctx):
+    """Tx.sig_hash_bip143 (with hash_prevouts / hash_sequence / hash_outputs) evaluated on a transaction of three inputs and two outputs whose
+    every field has different bytes, for hash types {1, 2, 3, 0x81, 0x82, 0x83} × script code source {p2wpkh from the spent output, p2sh-p2wpkh
+    from the RedeemScript, p2wsh from the WitnessScript} × input 0 / 2 (input 2 has no output of its index: SINGLE then commits to 32 zero
+    bytes), against the rule's own BIP143 preimage.  Inputs, outputs and timelocks are stand-ins with fixed serialisations; the p2pkh script
+    code is built by the repository's own script classes; hashing is the standard library's"""
+    import hashlib
+    from sa.cells import Evaluator, Obj, Raised, Undecided
+    spec = "tx:Tx.sig_hash_bip143"
+    mod, fn = rl.get(ctx, spec)
+    h256 = lambda b: hashlib.sha256(hashlib.sha256(b).digest()).digest()
+    vs = lambda b: bytes([len(b)]) + b
+    prevs = [bytes((40 * i + j) & 255 for j in range(32)) for i in range(1, 4)]
+    idxs, amounts, seqs = [5, 0, 258], [1000, 70000000000, 3], [0xFFFFFFFE, 7, 0xFFFFFFFF]
+    h160 = bytes(range(0x30, 0x44))
+    outs = [(21 + i, b"\x00\x14" + bytes([0xA0 + i]) * 20) for i in range(2)]
+    out_ser = [a.to_bytes(8, "little") + vs(sp) for a, sp in outs]
+    version, locktime = 2, 500001
+    WS = b"\x51\x21" + bytes(range(1, 34)) + b"\x51\xae"
+    p2pkh_code = b"\x76\xa9\x14" + h160 + b"\x88\xac"
+
+    def ref(idx, ht, code):
+        acp, base = ht & 0x80, ht & 3
+        m = version.to_bytes(4, "little")
+        m += bytes(32) if acp else h256(b"".join(prevs[i][::-1] + idxs[i].to_bytes(4, "little") for i in range(3)))
+        m += bytes(32) if acp or base in (2, 3) else h256(b"".join(q.to_bytes(4, "little") for q in seqs))
+        m += prevs[idx][::-1] + idxs[idx].to_bytes(4, "little") + vs(code) + amounts[idx].to_bytes(8, "little") + seqs[idx].to_bytes(4, "little")
+        if base not in (2, 3):
+            m += h256(b"".join(out_ser))
+        elif base == 3 and idx < len(out_ser):
+            m += h256(out_ser[idx])
+        else:
+            m += bytes(32)
+        return m + locktime.to_bytes(4, "little") + ht.to_bytes(4, "little")
+    hooks = {("TxIn", "value"): lambda o, *a, **k: o.attrs["amount_"], ("TxIn", "script_pubkey"): lambda o, *a, **k: o.attrs["spk_"],
+             ("TxOut", "serialize"): lambda o, *a, **k: o.attrs["ser_"], ("WitnessScript", "serialize"): lambda o, *a, **k: vs(o.attrs["raw_"]),
+             ("WitnessScript", "raw_serialize"): lambda o, *a, **k: o.attrs["raw_"]}
+    for cls in ("Locktime", "Sequence"):
+        hooks[(cls, "serialize")] = lambda o, *a, **k: o.attrs["n_"].to_bytes(4, "little")
+    n = 0
+    try:
+        for ht in (1, 2, 3, 0x81, 0x82, 0x83):
+            for kind in ("p2wpkh", "p2sh-p2wpkh", "p2wsh"):
+                for idx in (0, 2):
+                    n += 1
+                    ins = [Obj("tx", "TxIn", {"prev_tx": prevs[i], "prev_index": idxs[i], "sequence": Obj("timelock", "Sequence", {"n_": seqs[i]}), "amount_": amounts[i],
+                                              "witness": Obj("witness", "Witness", {"items": []}), "script_sig": Obj("script", "Script", {"commands": []}),
+                                              "spk_": Obj("script", "P2WPKHScriptPubKey", {"commands": [0, h160]})}) for i in range(3)]
+                    touts = [Obj("tx", "TxOut", {"amount": a, "ser_": out_ser[i]}) for i, (a, sp) in enumerate(outs)]
+                    me = Obj("tx", "Tx", {"version": version, "tx_ins": ins, "tx_outs": touts, "locktime": Obj("timelock", "Locktime", {"n_": locktime}), "network": "mainnet",
+                                          "segwit": True, "_hash_prevouts": None, "_hash_sequence": None, "_hash_outputs": None})
+                    kw = {"hash_type": ht}
+                    if kind == "p2sh-p2wpkh":
+                        kw["redeem_script"] = Obj("script", "RedeemScript", {"commands": [0, h160]})
+                    if kind == "p2wsh":
+                        kw["witness_script"] = Obj("script", "WitnessScript", {"raw_": WS, "commands": [0x51, bytes(range(1, 34)), 0x51, 0xAE]})
+                    where = "hash type %#04x, %s, input %d" % (ht, kind, idx)
+                    try:
+                        got = Evaluator(ctx.repo, method_hooks=hooks, max_steps=600000).call(spec, [idx], kwargs=kw, self_obj=me)
+                    except Raised as x:
+                        ctx.count("cells", n)
+                        return [ctx.bad(spec, "%s: the digest function raises %s" % (where, x.name), fn, mod, key="bip143-cells")]
+                    want = int.from_bytes(h256(ref(idx, ht, WS if kind == "p2wsh" else p2pkh_code)), "big")
+                    if got != want:
+                        ctx.count("cells", n)
+                        return [ctx.bad(spec, "%s: the digest is not the BIP143 signature hash (hashPrevouts / hashSequence / hashOutputs are the hash or 32 zero bytes as the hash "
+                                              "type says; the script code is %s)" % (where, "the WitnessScript" if kind == "p2wsh" else "the p2pkh script of the key hash"), fn, mod, key="bip143-cells")]
+    except Undecided as u:
+        return [ctx.err(spec, "BIP143 digest not evaluable: %s" % u, fn, mod)]
+    ctx.count("cells", n)
+    return [ctx.ok(spec, "%d cells (hash type × script code source × input): the digest equals hash256 of the rule's own BIP143 preimage" % n, fn, mod, key="bip143-cells")]
+
+
+def c05_3_deferring(ctx):
+    """BIP143 preimage layout per hash type (symbolic execution of the writer); in a form the layout executor does not read, the BIP143 cells
+    (C05.24) decide"""
+    return rl.deferring(c05_3, _bip143_cells, "tx:Tx.sig_hash_bip143", "decided by the BIP143 cells (C05.24: hash type × script code source × input, digest equals the rule's own preimage); "
+                        "the writer is not in the form the layout executor reads", FLOORS.get("C05.3", 1))(ctx)
+
+
+def c05_24(ctx):
+    """CELLS BIP143 digest: the whole function over the control parameters"""
+    return _bip143_cells(ctx)
+
+
 OBLIGATIONS = [
+    ("C05.24", "CELLS BIP143 digest", c05_24),
     ("C05.22", "CELLS leaf bytes (shared C12.22)", c05_22),
     ("C05.23", "CELLS BIP341 digest", c05_23),
     ("C05.21", "DIGEST-SOURCE", c05_21),
@@ -1030,7 +1122,7 @@ OBLIGATIONS = [
     ("C05.13", "MEMO", c05_13),
     ("C05.1", "COUNT", c05_1),
     ("C05.2", "LAYOUT vs spec", c05_2),
-    ("C05.3", "LAYOUT vs spec", c05_3),
+    ("C05.3", "LAYOUT vs spec", c05_3_deferring),
     ("C05.4", "LAYOUT vs spec", c05_4),
     ("C05.5", "TABLE dispatch", c05_5),
     ("C05.6", "MEMO", c05_6),
